@@ -89,6 +89,7 @@ class QueryMachine(SystemMachine):
                   'blockchain.scripthash.get_balance'][op[3]]
         if getattr(bp, '_c10_wrapped', False):
             bp._c10_armed.append((c, method, sh))
+            bp._c10_adv = 3
             await self.trigger_reorg(op[3], loop)
             return
         real = bp.backup_block
@@ -116,6 +117,24 @@ class QueryMachine(SystemMachine):
                     machine.window_queries += 1
                     machine.info['classes'].add('query_inside_reorg_window')
         bp.backup_block = backup_block
+        # ... and by-height queries for a block that has just been (re-)advanced in memory but is
+        # not flushed yet: the answer must not come from what an orphaned block left on disk
+        real_adv = bp.advance_block
+        bp._c10_adv = 0
+
+        def advance_block(block):
+            before = bp.state.height
+            real_adv(block)
+            if bp._c10_adv > 0 and bp.state.height == before + 1:
+                bp._c10_adv -= 1
+                for cl in [c for c in machine.clients if not c.closed][:1]:
+                    for pos in (0, 1):
+                        loop.call_soon(machine.send, cl, 'blockchain.transaction.id_from_pos',
+                                       [bp.state.height, pos, False],
+                                       {'kind': 'query', 'method': 'id_from_pos'})
+                    machine.info['classes'].add('by_height_query_for_unflushed_block')
+        bp.advance_block = advance_block
+        bp._c10_adv = 3
         await self.trigger_reorg(op[3], loop)
 
     async def trigger_reorg(self, mode, loop):
